@@ -64,7 +64,7 @@ SeriesFails(ev) ==
 (* loss, mode and precision.  ev.masses, ev.mzs, ev.labels, ev.massLabels, ev.mzLabels = the other return       *)
 (* types; ev.fragmenter = the cached Fragmenter's list (projected like frags, keys and masses only).            *)
 KeyOf(f) == <<f.t, f.s, f.e, f.z, f.iso, f.loss6>>
-RulesOf(ev) == [ q \in 1..Len(ev.rules) |-> [cls |-> SeqToSet(ev.rules[q].cls), val |-> ev.rules[q].val6] ]
+RulesOf(ev) == [ q \in 1..Len(ev.rules) |-> [cls |-> SeqToSet(ev.rules[q].cls), val |-> ev.rules[q].val6, edge |-> ev.rules[q].edge] ]
 (* a Fix value lies on the grid of p decimals (p <= 8) when its nano part is within 2e-9 of a multiple of 10^(9-p) *)
 OffGrid(m, p) == LET unit == Pow10(9 - p)  r == m[2] % unit IN p <= 8 /\ r > 2 /\ unit - r > 2
 HalfUnit(prec) == FAdd(Nano(100), IF prec = 0 THEN <<0, 500000000>> ELSE <<0, 5 * Pow10(8 - prec)>>)
